@@ -125,8 +125,12 @@ func (nm LNumber) Format(f fmt.State, c rune) {
 	switch c {
 	case 'q', 's':
 		defaultFormat(nm.String(), f, c)
-	case 'b', 'c', 'd', 'o', 'x', 'X', 'U':
+	case 'b', 'd', 'U':
 		defaultFormat(int64(nm), f, c)
+	case 'o', 'x', 'X':
+		defaultFormat(uint64(int64(nm)), f, c)
+	case 'c':
+		defaultFormat(string([]byte{byte(int64(nm))}), f, 's')
 	case 'e', 'E', 'f', 'F', 'g', 'G':
 		defaultFormat(float64(nm), f, c)
 	case 'i':
